@@ -58,9 +58,13 @@ class State:
         self.ghost = {}  # name -> SV (loop ghosts)
         self.writes = None  # when recording (dry run): dict array name -> set of ref terms | 'ALL'
         self.trace = []
+        self.in_binder = False  # the state evaluates the body of a comprehension / quantifier (one evaluation stands for every binding)
+        self.binder_vars = []   # the variables bound by the enclosing binders
 
     def copy(self):
         s = State(self.eng)
+        s.in_binder = self.in_binder
+        s.binder_vars = list(self.binder_vars)
         s.locals = dict(self.locals)
         s.heap = dict(self.heap)
         s.alloc = self.alloc
@@ -151,6 +155,22 @@ class State:
 
     # allocation
     def new_ref(self):
+        if self.in_binder:
+            # one symbolic evaluation of the body stands for all bindings: a single new reference would make every binding share
+            # one object.  The object is an injective function of the bound variables, somewhere between the allocation bound
+            # before and a new bound after (as for calls through a contract inside a comprehension, see call_contract)
+            if not self.binder_vars:
+                raise Unsupported("object construction inside a quantifier body without bound variables")
+            vs = list(self.binder_vars)
+            fn = z3.Function(fresh_name("bref"), *([v.sort() for v in vs] + [I]))
+            fr = fn(*vs)
+            na = z3.Int(fresh_name("alloc"))
+            self.assume(z3.And(self.alloc <= fr, fr < na))
+            v2 = [z3.Const(fresh_name("b"), v.sort()) for v in vs]
+            self.eng.facts.append(z3.ForAll(vs + v2, z3.Implies(fn(*vs) == fn(*v2), z3.And(*[a == b for a, b in zip(vs, v2)])),
+                                            patterns=[z3.MultiPattern(fn(*vs), fn(*v2))]))
+            self.alloc = na
+            return fr
         r = self.alloc
         fr = z3.Int(fresh_name("ref"))
         self.assume(fr == r)
